@@ -72,4 +72,20 @@ def Store.finalizeF (o : WOpts) (s : Store) (fault : Option Fault) : Store × Ou
           | .storage => ({ s' with closed := true }, .err .other, done)
         else s.step o .finalize
 
+/-- FinalizeReadOnly (blockstore) under an optional fault: the store is marked finalized before the
+    index and header are written, so after the failure it is finalized (not closed), the partial writes
+    stay, and every later finalizing call is refused. -/
+def Store.finalizeROF (o : WOpts) (s : Store) (fault : Option Fault) : Store × Out × List WriteEv :=
+  match fault with
+  | none => s.step o .finalizeRO
+  | some f =>
+    if o.v1 ∨ s.closed ∨ s.finalized ∨ s.api ≠ .blockstore then s.step o .finalizeRO
+    else match s.finalizeEvs o with
+      | none => s.step o .finalizeRO
+      | some evs =>
+        if f.call < evs.length then
+          let done := faultyPrefix evs f
+          ({ s.applyEvs done with finalized := true }, .err .other, done)
+        else s.step o .finalizeRO
+
 end Car
